@@ -227,6 +227,12 @@ func (qi *QuotaInfo) getLimitRequestNoLock() v1.ResourceList {
 	return limitRequest
 }
 
+func (qi *QuotaInfo) getLimitRequest() v1.ResourceList {
+	qi.lock.RLock()
+	defer qi.lock.RUnlock()
+	return qi.getLimitRequestNoLock()
+}
+
 func (qi *QuotaInfo) setMaxNoLock(max v1.ResourceList) {
 	qi.CalculateInfo.Max = max.DeepCopy()
 }
